@@ -338,7 +338,12 @@ func (m *Mux) encError(w http.ResponseWriter, r *http.Request, err error) {
 	w.Header().Set("Content-Type", accept)
 	w.WriteHeader(HTTPStatusCode(s.Code()))
 
-	b, err := c.Marshal(s.Proto())
+	sp := s.Proto()
+	if !utf8.ValidString(sp.Message) {
+		// Error texts may quote bytes of the request; keep the status encodable.
+		sp.Message = strings.ToValidUTF8(sp.Message, "\uFFFD")
+	}
+	b, err := c.Marshal(sp)
 	if err != nil {
 		panic(err) // ...
 	}
